@@ -308,6 +308,14 @@ def check_dilute(c, solute, conc, solvent, name, result, exc):
         return
     if verdict == 'unjudged':
         return
+    if exc is not None and R.is_enzyme(solvent):
+        # an enzyme as the *diluent*: the formulas need the solvent's molar mass and a density in g/mL; the library has always
+        # refused it, and says so with ValueError - the refusal is not judged, its kind is
+        M.count('FEAS.dilute_enzyme_diluent_refused')
+        if not H1.is_value_error(exc):
+            M.violate(['C03'], 'FEAS', f'C03:refusal_not_ValueError:dilute:enzyme_diluent:{type(exc).__name__}',
+                      {'concentration': conc, 'exc': repr(exc)[:300]})
+        return
     if exc is not None:
         et = type(exc).__name__
         if verdict == 'feasible':
